@@ -10,8 +10,9 @@
     (`Generated.ruleRows`: the unit label each handler of the live unyt/_array_functions.py attaches,
     as exponent expressions in the shapes) the label IS the hand-written homogeneity degree
     (`Ref.expected`), symbolically in the shapes — except the literal exclusion list `Ref.exclC07`,
-    every entry of which is witnessed (`exclusions_are_real`) and refuted concretely below
-    (`np.linalg.det` and `np.einsum`, repaired by `fix:` commits, are now positive statements).
+    every entry of which is witnessed by a row (`exclusions_are_real`, and one `…_counterexample` theorem
+    per excluded pair below; `np.linalg.det` and `np.einsum`, repaired by `fix:` commits, are positive
+    statements now).
   * `same_sound` / `sizeRatio_eq_reduced` (Lemmas/C07): the symbolic comparison is sound for all
     shapes; `a.size // res.size` is the number of factors of a product over any axes.
   * P-tab `dimensional_results_keep_units` (UnytProofs/C07Lists.lean): every function on the hand-written list of
@@ -64,15 +65,20 @@ theorem degree_zero_unchanged (laws : RPowLaws (RPow.rpow (K := K)) P) (lam : St
 /-- the symbolic comparison carries over to every concrete call: if the table check accepted the
     exponent expression of a leaf against the reference expression, then for ALL shapes (every valid
     environment) the handler's exponent is the reference degree -/
-theorem accepted_exponent_is_degree (env : Env) (hv : EnvValid env) (rule ref : Expo)
+theorem accepted_exponent_is_degree (env : Env) (rule ref : Expo)
+    (hv : EnvValidFor (rule.reducedParams ++ ref.reducedParams) env)
     (h : rule.same ref = true) : rule.eval env = ref.eval env :=
-  same_sound env hv rule ref h
+  same_sound env rule ref (fun p hp => hv p (List.mem_append_left _ hp))
+    (fun p hp => hv p (List.mem_append_right _ hp)) h
 
 end general
 
 /-! ### the regenerated table against the reference -/
 
-/-- the full statement at the level of the model: every handler's unit rule is the homogeneity degree -/
+/-- the full statement AT THE LEVEL OF THE TABLE: every handler's unit rule is the reference degree (no row
+    has a defect).  This is not the property itself — the property for one result component is `CovariantLeaf`
+    below, and `C07_partial_property` is the bridge from "no defect" to it (given the reference homogeneity of
+    the kernel, which no theorem here establishes). -/
 def C07_full : Prop := ∀ r ∈ Generated.ruleRows, rowDefects r = []
 
 /-- P-tab: every defect of every handler × call-form row of the regenerated table is on the literal
@@ -94,9 +100,20 @@ theorem unit_rule_is_degree : tableOk Ref.exclC07 Generated.ruleRows = true := b
 theorem exclusions_are_real : exclusionsWitnessed Ref.exclC07 Generated.ruleRows = true := by
   decide +kernel
 
-/-- the `ast` pass (source: all shapes) and the dynamic fit (sampled shapes) give the same
-    shape-dependent exponents -/
+/-- the `ast` pass (source: all shapes) and the dynamic fit (sampled shapes: 3 data seeds × the catalogue's
+    shape classes) give the same shape-dependent exponents.  Both directions, over EVERY row: (i) every
+    non-constant exponent the fit found in any leaf or out= label of any row is literally `units ** <that
+    expression>` in the handler's source (or a helper it calls); (ii) every non-constant `units ** e` of a
+    handler's source is the exponent of every returning row of that function.  So no shape-dependent row
+    rests on the fit alone.  What still rests on the sampled shapes: that a CONSTANT fitted exponent is
+    constant for all shapes — the source then has no `units ** <non-constant>` at all (by (ii)), so it could
+    only vary through a data- or shape-dependent branch in the handler (disclosed in the manifest). -/
 theorem static_exponents_match : staticsMatch Generated.staticExpos Generated.ruleRows = true := by
+  decide +kernel
+
+/-- which functions have shape-dependent rows at all: `np.prod` and `np.linalg.det` -/
+theorem shape_dependent_functions :
+    (Generated.ruleRows.all fun r => (rowExpos r).all isConst || r.func == "numpy.prod" || r.func == "numpy.linalg.det") = true := by
   decide +kernel
 
 /-- every handler the probe reaches has a reference entry ("missing" is a defect and is not excludable;
@@ -132,8 +149,10 @@ theorem C07_partial_all_shapes (r : Row) (hr : r ∈ Generated.ruleRows)
     specs.length = r.leaves.length ∧
     ∀ p ∈ specs.zip r.leaves,
       (∀ l, p.1 = .units l → ∀ g ∈ r.groups, ∃ e, expectedExpo r l g = some e ∧
-          ∀ env, EnvValid env → (expoOf p.2.expo g).eval env = e.eval env)
-      ∧ (p.1 = .unitless → ∀ ge ∈ p.2.expo, ∀ env, EnvValid env → ge.2.eval env = some 0) := by
+          ∀ env, EnvValidFor ((expoOf p.2.expo g).reducedParams ++ e.reducedParams) env →
+            (expoOf p.2.expo g).eval env = e.eval env)
+      ∧ (p.1 = .unitless → ∀ ge ∈ p.2.expo, ∀ env, EnvValidFor ge.2.reducedParams env →
+            ge.2.eval env = some 0) := by
   have hd := C07_partial r hr hguard
   unfold rowDefects at hd
   simp only [hnr, hexp, Bool.false_eq_true, if_false, List.append_eq_nil_iff] at hd
@@ -149,11 +168,11 @@ theorem C07_partial_all_shapes (r : Row) (hr : r ∈ Generated.ruleRows)
     · intro l hl g hg
       rw [hl] at hj
       obtain ⟨e, he, hs⟩ := leafDefects_units_sound r j l p.2 hj g hg
-      exact ⟨e, he, fun env hv => same_sound env hv _ _ hs⟩
+      exact ⟨e, he, fun env hv => accepted_exponent_is_degree env _ _ hv hs⟩
     · intro hl ge hge env hv
       rw [hl] at hj
       have hz0 := leafDefects_unitless_sound r j p.2 hj ge hge
-      have := same_sound env hv ge.2 (.const 0) hz0
+      have := same_sound env ge.2 (.const 0) hv (by intro p hp; simp [Expo.reducedParams] at hp) hz0
       simpa [Expo.eval] using this
 
 /-- the executable label (`Leaf.scale`, what the driver evaluates and the correspondence compares with
@@ -191,6 +210,90 @@ theorem dropped_coefficient_breaks_covariance {K : Type} [Lean.Grind.Field K]
       rw [← Lean.Grind.Semiring.mul_assoc, h2]; grind
     rw [this] at h4; grind
   exact hk (by grind)
+
+/-! ### the property itself, for one result leaf of one handled call -/
+
+/-- THE PROPERTY for a unit-carrying result component: whatever positive scales `u`, `u'` the operand
+    groups are written in (numbers multiplied by `lam g`, `lam g · u' g = u g`), the SI magnitude of the
+    labelled component — (scale of the label the handler attaches, `Leaf.scale`, the function the driver
+    executes) × (number) — is the same in both runs, GIVEN that the numeric component `x ↦ x'` is
+    positively homogeneous with the multi-degree `deg` (the kernel's mathematics: the hand-written reference
+    for handled functions; an assumption, validated only by the re-expression oracle). -/
+def CovariantLeaf {K : Type} [Lean.Grind.Field K] [RPow K] (P : K → Prop) (leaf : Leaf) (env : Env)
+    (deg : List (String × Rat)) : Prop :=
+  ∀ (u u' lam : String → K) (x x' : K),
+    (∀ g, P (u' g) ∧ P (lam g)) → (∀ g, lam g * u' g = u g) → x' = labelScale lam deg * x →
+    ∃ s s', leaf.scale u env = some s ∧ leaf.scale u' env = some s' ∧ s' * x' = s * x
+
+/-- the reference degrees of a leaf, listed along the label's own operand groups -/
+def refDegrees (r : Row) (l : List (String × Expo)) (leaf : Leaf) (env : Env) : Option (List (String × Rat)) :=
+  leaf.expo.mapM fun (g, _) => ((expectedExpo r l g).bind (·.eval env)).map fun q => (g, q)
+
+/-- every label of a returning row mentions operand groups of the call only (no stale `out`, no unknown) -/
+theorem label_groups_are_operand_groups :
+    (Generated.ruleRows.all fun r => r.raised || !(Ref.exclC07.all fun e => e.1 != r.func) ||
+      r.leaves.all fun l => l.expo.all fun ge => r.groups.contains ge.1) = true := by
+  decide +kernel
+
+/-- COMPOSITION (table obligation ⇒ property, leaf by leaf): in a returning row of a function outside the
+    exclusion list, every leaf the reference gives units is covariant for every concrete call (every
+    shape: any environment in which the reduced counts the expressions mention are what
+    `size // result.size` computes), provided the kernel has the reference's homogeneity degrees -/
+theorem C07_partial_property {K : Type} [Lean.Grind.Field K] [RPow K] (P : K → Prop)
+    (laws : RPowLaws (RPow.rpow (K := K)) P)
+    (r : Row) (hr : r ∈ Generated.ruleRows)
+    (hguard : (Ref.exclC07.all fun e => e.1 != r.func) = true) (hnr : r.raised = false)
+    (specs : List Ref.LeafSpec) (hexp : Ref.expected r.callForm = .leaves specs)
+    (p : Ref.LeafSpec × Leaf) (hp : p ∈ specs.zip r.leaves) (l : List (String × Expo)) (hl : p.1 = .units l)
+    (env : Env)
+    (hv : ∀ g ∈ r.groups, ∀ e, expectedExpo r l g = some e →
+      EnvValidFor ((expoOf p.2.expo g).reducedParams ++ e.reducedParams) env)
+    (hnodup : (p.2.expo.map (·.1)).Nodup)
+    (deg : List (String × Rat)) (hdeg : refDegrees r l p.2 env = some deg) :
+    CovariantLeaf P p.2 env deg := by
+  obtain ⟨_, hall⟩ := C07_partial_all_shapes r hr hguard hnr specs hexp
+  obtain ⟨hunits, _⟩ := hall p hp
+  have hkeys : ∀ ge ∈ p.2.expo, ge.1 ∈ r.groups := by
+    have h := label_groups_are_operand_groups
+    rw [List.all_eq_true] at h
+    have h1 := h r hr
+    simp only [hnr, hguard, Bool.false_or, Bool.not_true, List.all_eq_true] at h1
+    intro ge hge
+    have := h1 p.2 (List.of_mem_zip hp).2 ge hge
+    simpa using this
+  -- the leaf's own exponents ARE the reference degrees
+  have hsame : p.2.exponents env = refDegrees r l p.2 env := by
+    unfold Leaf.exponents refDegrees
+    apply mapM_congr_opt
+    intro ge hge
+    obtain ⟨g, ex⟩ := ge
+    obtain ⟨e, he, heq⟩ := hunits l hl g (hkeys (g, ex) hge)
+    have hfind : expoOf p.2.expo g = ex := by
+      unfold expoOf
+      have := find_of_nodup p.2.expo g ex hge hnodup
+      simp [this]
+    simp only [he, Option.bind_some]
+    rw [← heq env (hv g (hkeys (g, ex) hge) e he), hfind]
+  rw [hdeg] at hsame
+  intro u u' lam x x' hpos hconv hhom
+  exact labelled_leaf_covariant P laws p.2 env deg hsame u u' lam x x' hpos hconv hhom
+
+/-- precise form of the partial statement (guard = the recorded (function, defect) pairs, not whole
+    functions): a row none of whose defects is recorded has no defect at all -/
+theorem C07_partial_precise :
+    ∀ r ∈ Generated.ruleRows, ((rowDefects r).all fun d => !Ref.exclC07.contains (r.func, d)) = true →
+      rowDefects r = [] := by
+  intro r hr hg
+  have h := unit_rule_is_degree
+  simp only [tableOk, List.all_eq_true] at h
+  cases hd : rowDefects r with
+  | nil => rfl
+  | cons d ds =>
+    exfalso
+    have h1 := h r hr d (by rw [hd]; exact List.mem_cons_self ..)
+    rw [List.all_eq_true] at hg
+    have h2 := hg d (by rw [hd]; exact List.mem_cons_self ..)
+    rw [h1] at h2; exact Bool.noConfusion h2
 
 /-- unyt violates the full statement on the unchanged tree -/
 theorem C07_counterexample : ¬ C07_full := by
@@ -233,6 +336,27 @@ theorem lstsq_counterexample :
 theorem prod_where_counterexample :
     (Generated.ruleRows.any fun r => r.func == "numpy.prod" && r.variant == "where" && !r.raised
       && rowDefects r == ["refuse"]) = true := by decide +kernel
+
+/-- the remaining exclusions, one witness each (the defect string names leaf, group, handler exponent /
+    reference degree; by `wrong_degree_breaks_covariance` each wrong exponent breaks covariance) -/
+theorem lstsq_residuals_a_counterexample :
+    (Generated.ruleRows.any fun r => r.func == "numpy.linalg.lstsq" && !r.raised
+      && (rowDefects r).contains "degree:1:0:c:-1/c:0") = true := by decide +kernel
+theorem histogram_density_weights_counterexample :
+    (Generated.ruleRows.any fun r => r.func == "numpy.histogram" && !r.raised
+      && (rowDefects r).contains "degree:0:1:c:1/c:0") = true := by decide +kernel
+theorem histogram2d_density_weights_counterexample :
+    (Generated.ruleRows.any fun r => r.func == "numpy.histogram2d" && !r.raised
+      && (rowDefects r).contains "degree:0:2:c:1/c:0") = true := by decide +kernel
+theorem prod_initial_counterexample :
+    (Generated.ruleRows.any fun r => r.func == "numpy.prod" && !r.raised
+      && (rowDefects r).contains "degree:0:0:r:a/k:a+1") = true := by decide +kernel
+theorem logspace_base_counterexample :
+    (Generated.ruleRows.any fun r => r.func == "numpy.logspace" && !r.raised && rowDefects r == ["refuse"]) = true := by
+  decide +kernel
+theorem sinc_counterexample :
+    (Generated.ruleRows.any fun r => r.func == "numpy.sinc" && !r.raised && rowDefects r == ["refuse"]) = true := by
+  decide +kernel
 
 /-! ### non-vacuity -/
 
